@@ -125,7 +125,10 @@ def mutate_tree(rng, tree):
         op = rng.randrange(7)
         if n[0] == "t":
             if op == 0:
-                n[1].append((rng.choice(["zz", "extra", "0", "b"]) + str(rng.randrange(3)), rng.choice([("i", 1), ("s", "x"), ("t", []), ("a", [])])))
+                key = rng.choice(["zz", "extra", "0", "b"]) + str(rng.randrange(3))
+                if any(k == key for k, _ in n[1]):
+                    continue
+                n[1].append((key, rng.choice([("i", 1), ("s", "x"), ("t", []), ("a", [])])))
                 return tree, "extra-key"
             if op == 1 and n[1]:
                 del n[1][rng.randrange(len(n[1]))]
